@@ -108,7 +108,7 @@ Proof. intros H. unfold upd. destruct (i <? length a) eqn:E; [lia|reflexivity]. 
 
 (* ------------------------------------------------------------------ ring indices *)
 
-Lemma qsize_mk s a c h t : qsize (mkQ s a c h t) = length a.
+Lemma qsize_mk s a c h t i : qsize (mkQ s a c h t i) = length a.
 Proof. reflexivity. Qed.
 
 Lemma intern_congr q q' i : head q' = head q -> qsize q' = qsize q -> intern q' i = intern q i.
@@ -173,11 +173,13 @@ Lemma st_setu : st (setu q i v) = st q. Proof. reflexivity. Qed.
 Lemma cnt_setu : cnt (setu q i v) = cnt q. Proof. reflexivity. Qed.
 Lemma head_setu : head (setu q i v) = head q. Proof. reflexivity. Qed.
 Lemma tail_setu : tail (setu q i v) = tail q. Proof. reflexivity. Qed.
+Lemma inl_setu : inl (setu q i v) = inl q. Proof. reflexivity. Qed.
 Lemma qsize_setu : qsize (setu q i v) = qsize q. Proof. apply upd_length. Qed.
 Lemma st_set_raw : st (set_raw q i v) = st q. Proof. reflexivity. Qed.
 Lemma cnt_set_raw : cnt (set_raw q i v) = cnt q. Proof. reflexivity. Qed.
 Lemma head_set_raw : head (set_raw q i v) = head q. Proof. reflexivity. Qed.
 Lemma tail_set_raw : tail (set_raw q i v) = tail q. Proof. reflexivity. Qed.
+Lemma inl_set_raw : inl (set_raw q i v) = inl q. Proof. reflexivity. Qed.
 Lemma qsize_set_raw : qsize (set_raw q i v) = qsize q. Proof. apply upd_length. Qed.
 Lemma intern_setu j : intern (setu q i v) j = intern q j.
 Proof. apply intern_congr; [reflexivity|apply qsize_setu]. Qed.
@@ -193,7 +195,7 @@ Lemma prev_set_raw j : prev_index (set_raw q i v) j = prev_index q j.
 Proof. unfold prev_index. rewrite qsize_set_raw. reflexivity. Qed.
 End Proj.
 
-#[export] Hint Rewrite st_setu cnt_setu head_setu tail_setu qsize_setu st_set_raw cnt_set_raw head_set_raw
+#[export] Hint Rewrite inl_setu inl_set_raw st_setu cnt_setu head_setu tail_setu qsize_setu st_set_raw cnt_set_raw head_set_raw
   tail_set_raw qsize_set_raw intern_setu intern_set_raw next_setu prev_setu next_set_raw prev_set_raw : qdb.
 
 Lemma getu_set_raw q s v j :
